@@ -1824,8 +1824,14 @@ func (sc *serverConn) writeLoop() {
 }
 
 func (sc *serverConn) handleSettings(st *Settings) {
-	st.CopyTo(&sc.clientS)
-	sc.enc.SetMaxTableSize(sc.clientS.HeaderTableSize())
+	// Only what the frame carries changes (RFC 7540 6.5.3): a client that had
+	// announced a header table of 0 octets and later sent a SETTINGS frame about
+	// something else got the encoder's table put back to 4096.
+	st.mergeInto(&sc.clientS)
+
+	if st.has(HeaderTableSize) {
+		sc.enc.SetMaxTableSize(st.HeaderTableSize())
+	}
 
 	// The per-stream send windows are adjusted in handleStreams, where the
 	// stream table lives. The connection-level window is not affected by
